@@ -287,6 +287,26 @@ func checkCard(c CardCase) fw.Outcome {
 			c.Child, c.M, c.Parent, map[int]string{0: "rejected", 1: "accepted"}[want], ok, etxt, text)
 		return out
 	}
+	// the same statement inside the body of a prefixed extension statement (one and two levels deep): it is checked like
+	// anywhere else
+	if c.Parent != "module" && c.Parent != "submodule" {
+		for depth := 1; depth <= 2; depth++ {
+			w := toStmt(p, depth)
+			for d := depth; d > 0; d-- {
+				w = &yg.Stmt{Kw: []string{"x:wrap", "y:annotation"}[d%2], T0: "\n" + strings.Repeat("  ", d-1), T1: " ", Pieces: []yg.Piece{{Q: "u", Raw: "w"}}, Kids: []*yg.Stmt{w}, T3: "\n"}
+			}
+			wtext, _ := yg.Render([]*yg.Stmt{w}, "\n")
+			wok, wetxt, _, wfatal := parseText(wtext)
+			if wfatal != "" {
+				out.Violation = wfatal + " on " + wtext
+				return out
+			}
+			if wok != ok {
+				out.Violation = fmt.Sprintf("'%s' x%d under '%s': accepted=%v on its own, accepted=%v inside the body of an extension statement (%s)\ntext: %s", c.Child, c.M, c.Parent, ok, wok, wetxt, wtext)
+				return out
+			}
+		}
+	}
 	if !ok {
 		// the error names the offending statement (the child or, for a missing/duplicated child, its parent) and its location
 		idxs := []int{0}
